@@ -7,6 +7,8 @@ def gen_map_op(rng, n_jobs, rich=True, small=False):
     n = rng.choice([0, 1, 2, 3, rng.randint(0, 12), rng.randint(5, 40 if not small else 14)])
     inp = rng.choice(['list', 'list', 'range', 'gen', 'nd'] if rich else ['list', 'gen'])
     op = {'op': kind, 'n': n, 'input': inp, 'elem': rng.choice(['scalar', 'tuple', 'tuple1', 'dict', 'str', 'bytes', 'list']) if inp not in ('nd', 'range') else 'scalar'}
+    if inp == 'nd' and rng.random() < .4:
+        op['nd_dims'] = 1           # a one-dimensional array (chunks are 1-D slices; map puts the pieces together again)
     r = rng.random()
     if r < .35:
         op['chunk_size'] = rng.choice([1, 2, 3, 5, rng.randint(1, n + 2)])
